@@ -442,7 +442,7 @@ fn d_optic(x: &Sx) -> Option<TOptic> {
 // ---------------- Var signature ----------------
 impl var::HasVar for Lab {
     fn var() -> Self {
-        Lab(0)
+        Lab(9)
     }
 }
 macro_rules! has_bin {
@@ -464,21 +464,36 @@ macro_rules! has_un {
     };
 }
 // operator -> edge label (the generator writes `apply <code> ..` with the same codes)
-has_bin!(HasAdd, add, 20);
-has_bin!(HasMul, mul, 21);
+has_bin!(HasAdd, add, 0);
+has_bin!(HasMul, mul, 1);
 has_bin!(HasSub, sub, 22);
 has_bin!(HasDiv, div, 23);
-has_bin!(HasBitAnd, bitand, 25);
-has_bin!(HasBitXor, bitxor, 26);
+has_bin!(HasBitAnd, bitand, 5);
+has_bin!(HasBitXor, bitxor, 6);
 has_bin!(HasBitOr, bitor, 28);
 has_bin!(HasShl, shl, 29);
 has_bin!(HasShr, shr, 30);
-has_un!(HasNeg, neg, 24);
-has_un!(HasNot, not, 27);
+has_un!(HasNeg, neg, 2);
+has_un!(HasNot, not, 7);
 
 type V = var::Var<usize, Lab>;
 
+fn var_build_term(prog: &[Sx], ins: &[usize], outs: &[usize]) -> Option<Option<LOHG>> {
+    match var_build_raw(prog, ins, outs, false)? {
+        Ok(f) => Some(Some(f)),
+        Err(_) => Some(None),
+    }
+}
+
 fn var_build(prog: &[Sx], ins: &[usize], outs: &[usize], leaked: bool) -> Option<Sx> {
+    let r = var_build_raw(prog, ins, outs, leaked)?;
+    Some(ok(match r {
+        Ok(f) => some(e_lohg(&f)),
+        Err(_) => none(),
+    }))
+}
+
+fn var_build_raw(prog: &[Sx], ins: &[usize], outs: &[usize], leaked: bool) -> Option<var::BuildResult<usize, Lab>> {
     use std::cell::RefCell;
     use std::rc::Rc;
     let bad = RefCell::new(false);
@@ -500,17 +515,17 @@ fn var_build(prog: &[Sx], ins: &[usize], outs: &[usize], leaked: bool) -> Option
                         // use the operator overloads whenever the shape allows it
                         let ov = rts.len() == 1 && rts[0] == args.first().map(|v| v.label).unwrap_or(usize::MAX);
                         let r: Vec<V> = match (op, args.len(), ov) {
-                            (20, 2, true) => vec![args[0].clone() + args[1].clone()],
-                            (21, 2, true) => vec![args[0].clone() * args[1].clone()],
+                            (0, 2, true) => vec![args[0].clone() + args[1].clone()],
+                            (1, 2, true) => vec![args[0].clone() * args[1].clone()],
                             (22, 2, true) => vec![args[0].clone() - args[1].clone()],
                             (23, 2, true) => vec![args[0].clone() / args[1].clone()],
-                            (25, 2, true) => vec![args[0].clone() & args[1].clone()],
-                            (26, 2, true) => vec![args[0].clone() ^ args[1].clone()],
+                            (5, 2, true) => vec![args[0].clone() & args[1].clone()],
+                            (6, 2, true) => vec![args[0].clone() ^ args[1].clone()],
                             (28, 2, true) => vec![args[0].clone() | args[1].clone()],
                             (29, 2, true) => vec![args[0].clone() << args[1].clone()],
                             (30, 2, true) => vec![args[0].clone() >> args[1].clone()],
-                            (24, 1, true) => vec![-args[0].clone()],
-                            (27, 1, true) => vec![!args[0].clone()],
+                            (2, 1, true) => vec![-args[0].clone()],
+                            (7, 1, true) => vec![!args[0].clone()],
                             (_, _, _) if rts.len() == 1 && op % 2 == 1 => {
                                 vec![var::fn_operation(state, &args, rts[0], Lab(op))]
                             }
@@ -540,10 +555,8 @@ fn var_build(prog: &[Sx], ins: &[usize], outs: &[usize], leaked: bool) -> Option
     if *bad.borrow() {
         return None;
     }
-    Some(ok(match r {
-        Ok(f) => some(e_lohg(&f)),
-        Err(_) => none(),
-    }))
+    drop(leak);
+    Some(r)
 }
 
 // ---------------- term language ----------------
@@ -827,6 +840,21 @@ pub fn dispatch(op: &str, a: &[Sx]) -> Option<Sx> {
                 _ => return None,
             };
             var_build(prog, &d_nats(&a[1])?, &d_nats(&a[2])?, d_bool(&a[3])?)?
+        }
+        "var_eval" => {
+            // build through the Var API, forget the variables, strictify, evaluate on the test signature
+            let prog = match &a[0] {
+                Sx::L(p) => p,
+                _ => return None,
+            };
+            let inp = d_u64s(&a[3])?;
+            match var_build_term(prog, &d_nats(&a[1])?, &d_nats(&a[2])?)? {
+                None => ok(none()),
+                Some(f) => {
+                    let g = var::forget::forget(&f);
+                    vec_ops::run_eval(&s_from_lab(g.to_strict()), inp)
+                }
+            }
         }
         "term_eval" => {
             let bk = d_sym(&a[0])?;
